@@ -1095,6 +1095,12 @@ class Program:
             if it is not None and self._closed_or_symbolic(it):
                 an._havoc_mut_args(st, site, t, args, None)
                 return T.call("iter::" + dq.split("::")[-1], (), [it] + [self._stabilise(an, st, a) for a in args[1:]])
+        if dq == "iter::Extend::extend" and mut_idx == [0] and args[0].op == "ref" and len(args) == 2:
+            # `let mut v = Vec::new() / with_capacity(n); v.extend(it)` builds the same value as `it.collect()`
+            cur = an.read(st, arg_lvs[0])
+            if cur.op == "call" and cur.args[0] in ("vec::Vec::new", "vec::Vec::with_capacity") and self._closed_or_symbolic(args[1]):
+                an.write(st, arg_lvs[0], T.call("iter::Iterator::collect", (), [self._stabilise(an, st, args[1])]))
+                return T.call(dq, generics, [T.refval(cur), self._stabilise(an, st, args[1])])
         if mut_idx:
             an._havoc_mut_args(st, site, t, args, None)
             return T.fresh(site, "ret")
@@ -1204,6 +1210,12 @@ class Program:
             b = self._val(an, st, args[1])
             e = T.bin("Eq", a, b, generics[0] if generics else "?")
             return e if name.endswith("eq") else T.un("Not", e, "bool")
+        if name in ("option::Option::is_some", "option::Option::is_none", "result::Result::is_ok", "result::Result::is_err"):
+            # a test of the discriminant: lets later branches know the variant
+            x = self._val(an, st, args[0])
+            an.hint(x, name.rsplit("::", 1)[0])
+            k = {"is_some": 1, "is_none": 0, "is_ok": 0, "is_err": 1}[name.rsplit("::", 1)[1]]
+            return T.bin("Eq", T.discr(x), T.const("isize", k), "isize")
         if name == "mem::size_of" and generics:
             sz = {"u8": 1, "i8": 1, "u16": 2, "i16": 2, "u32": 4, "i32": 4, "u64": 8, "i64": 8, "u128": 16, "i128": 16}.get(generics[0])
             if sz is not None:
